@@ -578,6 +578,37 @@ def run(ctx):
                         )
     ctx.floor("state-writes", n_w, 10)
 
+    # ------------------------------------------------------------------
+    # R5 success means exit code 0: every evaluate() that looks at the exit code refuses *every* non-zero code
+    n_ec = 0
+    for rel in files:
+        s = ctx.src(rel)
+        for qual, f in s.funcs.items():
+            if qual.split(".")[-1] != "evaluate":
+                continue
+            codes = set()
+            for st in stmts(f):
+                if isinstance(st, ast.Assign) and isinstance(st.targets[0], ast.Name):
+                    v = ast.unparse(st.value)
+                    if v.endswith(".returncode") or "get_exit_code()" in v:
+                        codes.add(st.targets[0].id)
+            for st in stmts(f):
+                if not isinstance(st, ast.If):
+                    continue
+                for c in ast.walk(st.test):
+                    if isinstance(c, ast.Compare) and len(c.ops) == 1 and isinstance(c.comparators[0], ast.Constant) \
+                            and c.comparators[0].value == 0 and (
+                                (isinstance(c.left, ast.Name) and c.left.id in codes)
+                                or ast.unparse(c.left).endswith(".returncode") or "get_exit_code()" in ast.unparse(c.left)):
+                        n_ec += 1
+                        raises_t = any(isinstance(b, ast.Raise) for b in st.body)
+                        raises_f = any(isinstance(b, ast.Raise) for b in st.orelse)
+                        ok = (isinstance(c.ops[0], ast.NotEq) and raises_t) or (isinstance(c.ops[0], ast.Eq) and raises_f)
+                        ctx.ob("R5.nonzero-exit-refused", rel, qual, c, ok,
+                               "results may be read only after a successful run: every exit code other than 0 must make evaluate() fail "
+                               "(a child killed by a signal has a negative code)", c.lineno)
+    ctx.floor("exit-code-checks", n_ec, 2)
+
 
 def _inherited_tempfile(idx, cls, attr):
     for c in idx.mro(cls)[1:]:
@@ -595,6 +626,7 @@ def _inherited_tempfile(idx, cls, attr):
 
 
 MUTANTS = [
+    Mutant("exit-code-positive-only", "application/localapp.py", "        if exit_code != 0:", "        if exit_code > 0:", "R5.nonzero-exit-refused"),
     Mutant("cancel-drops-cleanup", "application/application.py",
            "        self._state = AppState.CANCELLED\n        self.clean_up()\n\n    def get_app_state",
            "        self._state = AppState.CANCELLED\n\n    def get_app_state",
